@@ -98,6 +98,12 @@ def _dispose_fields(fm, visited_s):
             fm.size.dispose()
             fm.sum_expr_btor = None
             fm.product_expr_btor = None
+            if fm.is_rand_sz and fm.is_scalar:
+                # Keep the storage of a random-size list in step with the size 
+                # the user sees, also when the call failed part-way
+                sz = int(fm.size.get_val())
+                if 0 <= sz < len(fm.field_l):
+                    del fm.field_l[sz:]
     else:
         fm.dispose()
 
